@@ -110,7 +110,7 @@ CHECKS["C01"] = dict(
 CHECKS["C04"] = dict(
     engine="tlc+nhsim", category="model_checking", design_ref="5 C04",
     technique="TLA+ pipeline specification (Pipeline.tla) model-checked exhaustively with a crash at every step (MCPipeline) and evaluated by TLC on Save/Send/Crash/Boot event streams of real NodeHosts (PipelineTrace)",
-    text="MCPipeline: every interleaving of step / send-free-order / save / send / commit with an adversarial environment and power loss at any pc, PersistBeforeSend and RestartMonotone hold (284k states); the mutated order (send before save) is refuted (vacuity check). PipelineTrace on real executions: a recording ILogDB (stamped after SaveRaftState returned) and a recording ITransport (stamped at egress) share one sequence; for every message that implies durable state (votes, vote requests, replication acks, heartbeat responses, ...) TLC requires the term/vote/entries it implies in the durable image built from the completed saves; after every power loss (also at the N-th file-system operation, repeated on a partitioned host, clean restarts in between) the image the log store returns must cover everything the replica told the world; finally all hosts lose power at once and every proposal that was reported Completed must be visible to a linearizable read. Pebble and Tan.",
+    text="MCPipeline: every interleaving of step / send-free-order / save / send / commit with an adversarial environment and power loss at any pc, PersistBeforeSend, RestartMonotone and ApplyNotAheadOfSave hold (684k states); the mutated orders (send before save, apply before save) are refuted (vacuity checks). PipelineTrace on real executions: a recording ILogDB (stamped after SaveRaftState returned) and a recording ITransport (stamped at egress) share one sequence; for every message that implies durable state (votes, vote requests, replication acks, heartbeat responses, ...) TLC requires the term/vote/entries it implies in the durable image built from the completed saves; an entry reaches the user state machine only after the replica made it durable itself (ApplyCovered); after every power loss (also at the N-th file-system operation, repeated on a partitioned host, clean restarts in between) the image the log store returns must cover everything the replica told the world; finally all hosts lose power at once and every proposal that was reported Completed must be visible to a linearizable read. Pebble and Tan.",
     note=NH_NOTE + " Observation skew (save stamped late, egress stamped early) can only hide an ordering, never invent one.")
 CHECKS["C11"] = dict(
     engine="tlc+nhsim", category="exploration", design_ref="5 C11",
